@@ -264,6 +264,20 @@ func sniExt(names ...string) [2]any {
 	return [2]any{uint16(0), out}
 }
 
+// sniTyped builds a server_name extension from (name_type, name) pairs.
+func sniTyped(entries ...any) [2]any {
+	var b cryptobyte.Builder
+	b.AddUint16LengthPrefixed(func(b *cryptobyte.Builder) {
+		for i := 0; i+1 < len(entries); i += 2 {
+			b.AddUint8(uint8(entries[i].(int)))
+			n := entries[i+1].(string)
+			b.AddUint16LengthPrefixed(func(b *cryptobyte.Builder) { b.AddBytes([]byte(n)) })
+		}
+	})
+	out, _ := b.Bytes()
+	return [2]any{uint16(0), out}
+}
+
 func c10Synthetic(r *rand.Rand) []c10Entry {
 	sigalgs := [2]any{uint16(13), []byte{0, 4, 4, 3, 8, 4}}
 	groups := [2]any{uint16(10), []byte{0, 4, 0, 29, 0, 23}}
@@ -286,6 +300,15 @@ func c10Synthetic(r *rand.Rand) []c10Entry {
 	add("padding to ~16KiB", c10Build(nil, 2, [][2]any{groups, sigalgs, sniExt("padded.test"), pad(16000)}))
 	add("padding before SNI", c10Build(nil, 2, [][2]any{pad(4000), groups, sigalgs, sniExt("afterpad.test")}))
 	add("two name entries (host_name then other type)", c10Build(nil, 2, [][2]any{groups, sigalgs, sniExt("two.test", "other")}))
+	add("other name type before host_name", c10Build(nil, 2, [][2]any{groups, sigalgs, sniTyped(1, "xyz", 0, "after.test")}))
+	add("other name types around host_name", c10Build(nil, 2, [][2]any{groups, sniTyped(7, "x", 0, "between.test", 200, strings.Repeat("y", 300)), sigalgs}))
+	add("only another name type", c10Build(nil, 2, [][2]any{groups, sigalgs, sniTyped(3, "not-a-host-name")}))
+	add("two other name types, no host_name", c10Build(nil, 2, [][2]any{sniTyped(1, "a", 2, "b"), groups, sigalgs}))
+	add("other name type with empty name before host_name", c10Build(nil, 2, [][2]any{groups, sigalgs, sniTyped(1, "", 0, "afterempty.test")}))
+	add("only an empty entry of another type", c10Build(nil, 2, [][2]any{groups, sigalgs, sniTyped(9, "")}))
+	add("two host_name entries", c10Build(nil, 2, [][2]any{groups, sigalgs, sniTyped(0, "one.test", 0, "two.test")}))
+	add("empty server name list", c10Build(nil, 2, [][2]any{groups, sigalgs, sniTyped()}))
+	add("host_name with trailing dot", c10Build(nil, 2, [][2]any{groups, sigalgs, sniTyped(0, "dot.test.")}))
 	add("many cipher suites", c10Build(nil, 200, [][2]any{groups, sigalgs, sniExt("suites.test")}))
 	add("253 char name", c10Build(nil, 2, [][2]any{groups, sigalgs, sniExt(strings.Repeat("a.", 126) + "b")}))
 	add("upper case name", c10Build(nil, 2, [][2]any{groups, sigalgs, sniExt("UPPER.Test")}))
@@ -314,6 +337,8 @@ func c10SNI(c *ctx) {
 		c.R.Inconcl("corpus too small: %d", len(corpus))
 		return
 	}
+	// a parse of at most one TLS record costs microseconds: one that has not returned after 20s never will
+	hg := newHangGuard(c, "c10:parse-does-not-terminate", 20*time.Second)
 	var accepted, withName, big int
 	for _, e := range corpus {
 		c.R.Eval(1)
@@ -324,7 +349,10 @@ func c10SNI(c *ctx) {
 		var ok bool
 		var size int
 		var err error
-		if p := safely(func() { name, ok, size, err = fabioSNI(e.Rec) }); p != "" {
+		leave := hg.enter(e.Rec)
+		p := safely(func() { name, ok, size, err = fabioSNI(e.Rec) })
+		leave()
+		if p != "" {
 			c.R.Violate("c10:panic", p, in)
 			continue
 		}
@@ -357,7 +385,10 @@ func c10SNI(c *ctx) {
 				continue
 			}
 			// end to end through the exported proxy
-			if got, called := c10ViaProxy(e.Rec); called != (stdName != "") || got != stdName {
+			leave = hg.enter(e.Rec)
+			got, called := c10ViaProxy(e.Rec)
+			leave()
+			if called != (stdName != "") || got != stdName {
 				c.R.Violate("c10:sniproxy-lookup", fmt.Sprintf("%s: SNIProxy looked up %q (called=%v), want %q", e.Desc, got, called, stdName), in)
 			}
 			if c.R.WantSample() {
@@ -381,6 +412,7 @@ func c10SNI(c *ctx) {
 		c.R.Eval(1)
 		li.Set(data)
 		var ok bool
+		defer hg.enter(data)()
 		if p := safely(func() {
 			_, ok, _, _ = fabioSNI(data)
 			if len(data) > 5 {
@@ -439,12 +471,15 @@ func c10SNI(c *ctx) {
 		var ok bool
 		var size int
 		var err error
-		if p := safely(func() {
+		leave := hg.enter(d)
+		p := safely(func() {
 			name, ok, size, err = fabioSNI(d)
 			if len(d) > 5 {
 				tcp.VerifReadServerName(d[5:])
 			}
-		}); p != "" {
+		})
+		leave()
+		if p != "" {
 			c.R.Violate("c10:panic:corrupt", p, map[string]any{"Hex": hex.EncodeToString(d)})
 			return
 		}
